@@ -1,5 +1,5 @@
 CONSTANTS WithInject = FALSE
-          Cover = FALSE
+          Cover = TRUE
 INIT Init
 NEXT Next
 CHECK_DEADLOCK FALSE
